@@ -6,6 +6,7 @@
 From Coq Require Import ZArith List.
 From Coq.Strings Require Import Byte.
 From TS Require Import Bytes State Prog Ops Interp TimeSpec TablesCheck Builders LockSpecC16.
+From TS Require BuilderSourcesProofs.
 Import ListNotations.
 Open Scope Z_scope.
 
@@ -156,6 +157,19 @@ Theorem C16_between_verify_lock_exact :
   | _ => False
   end.
 Proof. exact ts_between_verify_accepts_iff. Qed.
+
+(* ---------- the timestamp lock builders as SOURCE (model/BuilderSources.v mirrors the f-string templates of tools.py token for token — 83 Examples
+   against the real .src / .bytes; proofs/BuilderSourcesProofs.v: the template TEXT compiles, for all arguments, to the bytes of
+   model/Builders.v that the theorems above are about; closed statements printed by Check) ---------- *)
+Definition C16_src_ts_after_lock_compiles := @BuilderSourcesProofs.ts_after_lock_compiles.
+Definition C16_src_ts_before_lock_compiles := @BuilderSourcesProofs.ts_before_lock_compiles.
+Definition C16_src_ts_between_lock_compiles := @BuilderSourcesProofs.ts_between_lock_compiles.
+Check C16_src_ts_after_lock_compiles.
+Check C16_src_ts_before_lock_compiles.
+Check C16_src_ts_between_lock_compiles.
+Print Assumptions C16_src_ts_after_lock_compiles.
+Print Assumptions C16_src_ts_before_lock_compiles.
+Print Assumptions C16_src_ts_between_lock_compiles.
 
 Print Assumptions C16_check_timestamp_exact.
 Print Assumptions C16_after_lock_exact.
